@@ -215,6 +215,57 @@ func closesNonNil(h *ssa.Function, p *ssa.Parameter) bool {
 	return true
 }
 
+// onlyCalledFrom: f is an unexported function of its package that is called
+// (statically, at least once) and only from the functions in allowed or their
+// anonymous functions — lines a maintainer moved out of one of them. all is the
+// set of functions of the package to search for callers.
+func onlyCalledFrom(f *ssa.Function, all []*ssa.Function, allowed ...*ssa.Function) bool {
+	if f == nil || f.Object() == nil || f.Object().Exported() {
+		return false
+	}
+	callers := 0
+	for _, g := range all {
+		for _, call := range engine.Calls(g) {
+			if call.Common().StaticCallee() != f {
+				continue
+			}
+			callers++
+			root := g
+			for root.Parent() != nil {
+				root = root.Parent()
+			}
+			ok := false
+			for _, a := range allowed {
+				if root == a {
+					ok = true
+				}
+			}
+			if !ok {
+				return false
+			}
+		}
+		// handed around as a value: callers unknown
+		for _, b := range g.Blocks {
+			for _, in := range b.Instrs {
+				if ci, isCall := in.(ssa.CallInstruction); isCall {
+					for _, a := range ci.Common().Args {
+						if a == ssa.Value(f) {
+							return false
+						}
+					}
+					continue
+				}
+				for _, op := range in.Operands(nil) {
+					if op != nil && *op == ssa.Value(f) {
+						return false
+					}
+				}
+			}
+		}
+	}
+	return callers > 0
+}
+
 // instrsWithHelpers visits the instructions of fn and of the same-package
 // helpers it calls directly.
 func instrsWithHelpers(fn *ssa.Function, visit func(ssa.Instruction)) {
